@@ -61,29 +61,89 @@ def render_c11(inst):
             elif d["k"] == "identity":
                 L.append(ind + ("identity %s {%s }" % (d["n"], "".join(" base %s;" % r for r in refs)) if refs else "identity %s;" % d["n"]))
             elif d["k"] == "typedef":
-                L.append(ind + "typedef %s { type %s; }" % (d["n"], refs[0] if refs else "string"))
+                t = refs[0] if refs else "string"
+                if refs and d["pos"] == "union":
+                    L.append(ind + "typedef %s { type union { type string; type %s; } }" % (d["n"], t))
+                else:
+                    L.append(ind + "typedef %s { type %s; }" % (d["n"], t))
             elif d["k"] == "grouping":
+                # the uses statements of the grouping, in the position the instance prescribes
+                n, pos = d["n"], d["pos"]
                 uses = "".join(" uses %s;" % r for r in refs)
-                inner = uses if d["nest"] else ""
-                outer = "" if d["nest"] else uses
-                L.append(ind + 'grouping %s { container k%s { leaf l%s { type string; default "d0"; }%s }%s }'
-                         % (d["n"], d["n"], d["n"], inner, outer))
+                inner, outer, pre = "", "", ""
+                if not refs or pos == "direct":
+                    outer = uses
+                elif pos == "container":
+                    inner = uses
+                elif pos == "list":
+                    outer = " list q%s { key id; leaf id { type string; }%s }" % (n, uses)
+                elif pos == "choice":
+                    outer = " choice o%s { case w%s {%s } }" % (n, n, uses)
+                elif pos == "augment":
+                    pre = ind + "grouping h%s { container h%s { } }\n" % (n, n)
+                    outer = " uses h%s { augment h%s {%s } }" % (n, n, uses)
+                elif pos == "inner":
+                    outer = " grouping i%s {%s } uses i%s;" % (n, uses, n)
+                else:
+                    raise Infra("unknown position " + pos)
+                L.append(pre + ind + 'grouping %s { container k%s { leaf l%s { type string; default "d0"; }%s }%s }'
+                         % (n, n, n, inner, outer))
         return L
+
+    def rpos_of(r):
+        rp = inst.get("rpos", "container")
+        return "container" if "." in r["home"] and rp in ("rpc", "notification") else rp
 
     def root_lines(h, m, ind):
         L = []
         for r in sorted((r for r in inst["roots"] if r["home"] == h), key=lambda r: (r["k"], r["n"], r["m"])):
             rt = ref_text(inst, m, r, r["k"])
+            rp, n = rpos_of(r), r["n"]
             if r["k"] == "grouping":
-                L.append(ind + "uses %s;" % rt)
+                if rp == "list":
+                    L.append(ind + "list rq { key id; leaf id { type string; } uses %s; }" % rt)
+                elif rp == "choice":
+                    L.append(ind + "choice ro { case rw { uses %s; } }" % rt)
+                elif rp in ("rpc", "notification"):
+                    pass                  # written at the top level of the module (top_root_lines)
+                else:
+                    L.append(ind + "uses %s;" % rt)
             elif r["k"] == "typedef":
-                L.append(ind + "leaf rt%s { type %s; }" % (r["n"], rt))
+                if rp == "leaf-list":
+                    L.append(ind + "leaf-list rt%s { type %s; }" % (n, rt))
+                elif rp == "union":
+                    L.append(ind + "leaf rt%s { type union { type string; type %s; } }" % (n, rt))
+                else:
+                    L.append(ind + "leaf rt%s { type %s; }" % (n, rt))
             elif r["k"] == "subtype":
-                L.append(ind + "leaf ru%s { type t%s; }" % (r["n"], r["n"]))
+                L.append(ind + "leaf ru%s { type t%s; }" % (n, n))
             elif r["k"] == "identity":
-                L.append(ind + "leaf ri%s { type identityref { base %s; } }" % (r["n"], rt))
+                if rp == "union":
+                    L.append(ind + "leaf ri%s { type union { type string; type identityref { base %s; } } }" % (n, rt))
+                elif rp == "typedef":
+                    L.append(ind + "typedef ti%s { type identityref { base %s; } }" % (n, rt))
+                    L.append(ind + "leaf ri%s { type ti%s; }" % (n, n))
+                else:
+                    L.append(ind + "leaf ri%s { type identityref { base %s; } }" % (n, rt))
             elif r["k"] == "feature":
-                L.append(ind + "leaf rf%s { if-feature %s; type string; }" % (r["n"], rt))
+                if rp == "container":
+                    L.append(ind + "container rf%s { if-feature %s; }" % (n, rt))
+                elif rp == "list":
+                    L.append(ind + "list rf%s { if-feature %s; key id; leaf id { type string; } }" % (n, rt))
+                elif rp == "leaf-list":
+                    L.append(ind + "leaf-list rf%s { if-feature %s; type string; }" % (n, rt))
+                else:
+                    L.append(ind + "leaf rf%s { if-feature %s; type string; }" % (n, rt))
+        return L
+
+    def top_root_lines(m):
+        L = []
+        for r in sorted((r for r in inst["roots"] if r["home"] == m and r["k"] == "grouping"), key=lambda r: (r["n"], r["m"])):
+            rt = ref_text(inst, m, r, r["k"])
+            if rpos_of(r) == "rpc":
+                L.append(" rpc rr { input { uses %s; } }" % rt)
+            elif rpos_of(r) == "notification":
+                L.append(" notification rn { uses %s; }" % rt)
         return L
 
     def aug_lines(u):
@@ -112,6 +172,7 @@ def render_c11(inst):
         L.append("  leaf l0 { type string; }")
         L += root_lines(m, m, "  ")
         L.append(" }")
+        L += top_root_lines(m)
         scopes = sorted(set(x["home"] for x in inst["defs"] + inst["roots"] if x["home"].startswith(m + ".")))
         for h in scopes:
             L.append(" container %s {" % h.split(".", 1)[1])
@@ -161,8 +222,11 @@ def project(dump):
             d = n["default"][0] if n.get("default") and n["default"][1] else ""
             ids = ()
             t = n.get("type") or {}
-            if "identities" in t:
-                ids = tuple(sorted(x.split("|")[1].replace("urn:", "") + ":" + x.split("|")[3] for x in t["identities"]))
+            idl = list(t.get("identities", []))
+            for mem in t.get("members", []):
+                idl += mem.get("identities", [])
+            if idl:
+                ids = tuple(sorted(x.split("|")[1].replace("urn:", "") + ":" + x.split("|")[3] for x in idl))
             if not d and t.get("default", ["", False])[1]:
                 d = t["default"][0]
             out.add((p, "l", d, ids))
@@ -301,7 +365,9 @@ def run_c11(ctx):
     nsample = 40 if quick else 0
 
     def mc():
-        return ctx.tlc("CompilePipelineMC", "CompilePipelineMC.cfg", workers=8, timeout=1500, heap="8g", consts={"Size": '"%s"' % size})
+        # quick: three of the six grouping positions in the exhaustive model (the generator and the real compiler see all)
+        posn = '{"direct", "container", "augment", "union"}' if quick else '{"direct", "container", "list", "choice", "augment", "inner", "union"}'
+        return ctx.tlc("CompilePipelineMC", "CompilePipelineMC.cfg", workers=8, timeout=1500, heap="8g", consts={"Size": '"%s"' % size, "Positions": posn})
 
     def mc_any():
         time.sleep(0.3)
@@ -311,7 +377,7 @@ def run_c11(ctx):
     def gen():
         time.sleep(0.6)
         return ctx.tlc("CompilePipelineGen", "CompilePipelineGen.cfg", workers=5, timeout=1500, heap="8g",
-                       consts={"Size": '"%s"' % size, "NSample": nsample, "NCombo": 200 if quick else 3000}, extra=["-seed", str(ctx.seed)])
+                       consts={"Size": '"%s"' % size, "NSample": nsample, "NCombo": 150 if quick else 3000}, extra=["-seed", str(ctx.seed)])
 
     with cf.ThreadPoolExecutor(max_workers=3) as ex:
         futs = [ex.submit(f) for f in (mc, mc_any, gen)]
@@ -329,7 +395,7 @@ def run_c11(ctx):
         cases.append(dict(id=i, mods=render_c11(v["inst"]), xp=False, off=sorted(v["inst"]["off"])))
     cin, cout = ctx.path("c11_cases.ndjson"), ctx.path("c11_res.ndjson")
     write_ndjson(cin, cases)
-    K = 8 if quick else 24
+    K = 6 if quick else 16
     ctx.run_bin("cc", ["run", "-in", cin, "-out", cout, "-k", str(K), "-workers", "14"], timeout=2400)
     res = read_ndjson(cout)
     if len(res) != len(cases):
